@@ -72,10 +72,15 @@ G32 == ev.e = "Issue" /\ now > 0 /\ co[ev.r].h.c = 0 /\ \E c \in Dial : conn[c].
 G33 == ev.e = "Issue" /\ now > 0 /\ co[ev.r].h.c # 0 /\ conn[co[ev.r].h.c].h2
 \* the pool is dropped
 G30 == ev.e = "DropPool" /\ ReleasedStandby
-G31 == ev.e = "HandBack" /\ ~cfg.alive
+G31 == ev.e = "HandBack" /\ ~cfg.alive /\ ~cfg.nopool
+\* the service has no pool (`without_pool`): detached checkouts
+G34 == ev.e = "Handoff" /\ cfg.nopool /\ conn[ev.c].h2 /\ \E k \in Req : k # ev.r /\ req[k].st = "checkout" /\ req[k].h2
+G35 == ev.e = "Cancel" /\ cfg.nopool /\ ev.stage = "checkout" /\ ndial > 0
+G36 == ev.e = "HandBackDrop" /\ cfg.nopool
+G37 == ev.e = "PollErr" /\ cfg.nopool /\ \E k \in Req : req[k].st = "checkout"
 
 NotG09 == ~G09  NotG10 == ~G10  NotG11 == ~G11  NotG12 == ~G12  NotG13 == ~G13  NotG14 == ~G14  NotG15 == ~G15  NotG16 == ~G16
 NotG17 == ~G17  NotG18 == ~G18  NotG19 == ~G19  NotG20 == ~G20  NotG21 == ~G21  NotG22 == ~G22  NotG23 == ~G23  NotG24 == ~G24
 NotG25 == ~G25  NotG26 == ~G26  NotG27 == ~G27  NotG28 == ~G28  NotG29 == ~G29  NotG30 == ~G30  NotG31 == ~G31
-NotG32 == ~G32  NotG33 == ~G33
+NotG32 == ~G32  NotG33 == ~G33  NotG34 == ~G34  NotG35 == ~G35  NotG36 == ~G36  NotG37 == ~G37
 =============================================================================
